@@ -245,7 +245,10 @@ class Executor:
         cd = self.shared.concrete_dims
         if cd is not None:
             if name not in cd:
-                cd[name] = lo + len(cd)
+                if getattr(self.shared, "dim_scheme", "consecutive") == "powers":
+                    cd[name] = max(lo, 2 ** (len(cd) + 1))
+                else:
+                    cd[name] = lo + len(cd)
             return cd[name]
         self.shared.used_dims.add(name)
         return self.int(name, lo)
